@@ -19,7 +19,7 @@
 (*   wt      <<>> (no weight) or per block [wshape |-> batch dims of the weight tensor,     *)
 (*           mats |-> row-major list of its R x R matrices]                                 *)
 (*   cor     <<>> (Trivial corrector) or per block the per-item action of the corrector     *)
-(*           (see Corrected)                                                               *)
+(*           (user corrector matrices, FastTriggs / Triggs with a polynomial kernel)        *)
 (*                                                                                        *)
 (* Documented system (rows: blocks in output order, each flattened row-major with the      *)
 (* residual dimension last; columns: TRAINABLE parameters in named_parameters order, each  *)
@@ -144,32 +144,65 @@ RawR(m) == LET its == Items(m) IN Cat(TLCEval([i \in 1..Len(its) |-> ItemVal(m, 
 RawJ(m) == LET its == Items(m)  ds == ItemDims(m)  cols == Columns(m) IN
            Cat(TLCEval([i \in 1..Len(its) |-> ItemRows(m, its[i], ds[i], cols)]))
 
+\* rows of block b inside the stacked vectors: <<offset, count>>
+BlockRows(m, b) == LET n == [k \in 1..Len(m.blocks) |-> m.blocks[k].R * Len(m.blocks[k].items)] IN <<SumN(n, b - 1), n[b]>>
+
 \* ------------------------------------------------------------------ corrector
 \* "R, J are first passed through the configured corrector": per block; the corrector's action on a
-\* lattice instance is given per item as a matrix C (R' = C R_item, J' = C J_item):
+\* lattice instance is given per item by two matrices (R' = CR R_item, J' = CJ J_item):
 \*   [t |-> "none"]                              Trivial
-\*   [t |-> "mat", C |-> <<per item R x R>>]     any user corrector acting item-wise linearly
+\*   [t |-> "mat", C |-> <<per item R x R>>, CJ |-> <<per item R x R>>]   any user corrector acting item-wise linearly
 \*   [t |-> "ft", dk |-> <<rho' coefficients>>, s |-> <<per item s_i>>]   FastTriggs with a polynomial
-\*        kernel: C = s_i I where s_i >= 0 and s_i^2 = rho'(|R_item|^2)   (checked by FastTriggsOK)
+\*        kernel: CR = CJ = s_i I where s_i >= 0 and s_i^2 = rho'(|R_item|^2)
+\*   [t |-> "tr", dk, s, u |-> <<per item u_i>>]   Triggs with a polynomial kernel: where rho'' > 0 and R_item # 0,
+\*        alpha = 1 - u_i with u_i >= 0, rho' u_i^2 = rho' + 2 |R|^2 rho'',  CR = s_i / (1 - alpha) I,
+\*        CJ = s_i (I - alpha R R' / |R|^2);  elsewhere as FastTriggs           (data checked by KernelDataOK)
 RECURSIVE PolyN(_, _, _)
 PolyN(cf, x, n) == IF n = 0 THEN DZero ELSE DAdd(cf[Len(cf) - n + 1], DMul(x, PolyN(cf, x, n - 1)))
 Poly(cf, x) == PolyN(cf, x, Len(cf))           \* cf[1] + cf[2] x + cf[3] x^2 ...
-CorMat(cr, i, rdim) == CASE cr.t = "none" -> Ident(rdim)
-                         [] cr.t = "mat"  -> cr.C[i]
-                         [] cr.t = "ft"   -> MatScale(cr.s[i], Ident(rdim))
+PolyD(cf)   == [i \in 1..(Len(cf) - 1) |-> DMul(D(i), cf[i + 1])]     \* coefficients of the derivative
+TriggsMasked(cr, r) == LET x == Dot(r, r) IN x # DZero /\ DIsPos(Poly(PolyD(cr.dk), x))
+CorMatR(cr, i, rdim, r) ==
+  CASE cr.t = "none" -> Ident(rdim)
+    [] cr.t = "mat"  -> cr.C[i]
+    [] cr.t = "ft"   -> MatScale(cr.s[i], Ident(rdim))
+    [] cr.t = "tr"   -> IF TriggsMasked(cr, r) THEN MatScale(DMul(cr.s[i], DInvPow2(cr.u[i])), Ident(rdim))
+                        ELSE MatScale(cr.s[i], Ident(rdim))
+CorMatJ(cr, i, rdim, r) ==
+  CASE cr.t = "none" -> Ident(rdim)
+    [] cr.t = "mat"  -> cr.CJ[i]
+    [] cr.t = "ft"   -> MatScale(cr.s[i], Ident(rdim))
+    [] cr.t = "tr"   -> IF TriggsMasked(cr, r)
+                        THEN LET x == Dot(r, r)  aox == DMul(DSub(DOne, cr.u[i]), DInvPow2(x)) IN      \* alpha / |R|^2
+                             MatScale(cr.s[i], MatAdd(Ident(rdim), MatScale(DNeg(aox), Outer(r, r))))
+                        ELSE MatScale(cr.s[i], Ident(rdim))
 BlockCor(m, b) == IF Len(m.cor) = 0 THEN [t |-> "none"] ELSE m.cor[b]
-CorMats(m) == Cat([b \in 1..Len(m.blocks) |->
-                     [i \in 1..Len(m.blocks[b].items) |-> CorMat(BlockCor(m, b), i, m.blocks[b].R)]])
+\* per item: <<block, index in block, residual dimension, row offset in the stacked vector>>
+ItemIndex(m) == Cat([b \in 1..Len(m.blocks) |->
+                       [i \in 1..Len(m.blocks[b].items) |->
+                          <<b, i, m.blocks[b].R, BlockRows(m, b)[1] + (i - 1) * m.blocks[b].R>>]])
+CorMats(m, Rv, forJ) ==
+  LET ix == ItemIndex(m) IN
+  TLCEval([k \in 1..Len(ix) |->
+     LET r == Slice(Rv, ix[k][4], ix[k][3]) IN
+     IF forJ THEN CorMatJ(BlockCor(m, ix[k][1]), ix[k][2], ix[k][3], r)
+     ELSE CorMatR(BlockCor(m, ix[k][1]), ix[k][2], ix[k][3], r)])
 HasCor(m) == \E b \in 1..Len(m.cor) : m.cor[b].t # "none"
 Corrected(m, Rv, J) ==         \* <<R', J'>>
   IF ~HasCor(m) THEN <<Rv, J>>
-  ELSE Only({ <<MatVec(C, Rv), MatMul(C, J)>> : C \in { BlockDiag(CorMats(m)) } })
-\* FastTriggs instance data is consistent with the kernel polynomial at the true residuals
-FastTriggsOK(m) ==
-  \A b \in 1..Len(m.cor) : m.cor[b].t = "ft" =>
+  ELSE Only({ <<MatVec(CR, Rv), MatMul(CJ, J)>> :
+              CR \in { BlockDiag(CorMats(m, Rv, FALSE)) }, CJ \in { BlockDiag(CorMats(m, Rv, TRUE)) } })
+\* FastTriggs / Triggs instance data is consistent with the kernel polynomial at the true residuals
+KernelDataOK(m) ==
+  \A b \in 1..Len(m.cor) : m.cor[b].t \in {"ft", "tr"} =>
     \A i \in 1..Len(m.blocks[b].items) :
-      LET r == ItemVal(m, m.blocks[b].items[i])  s == m.cor[b].s[i] IN
-      ~DLess(s, DZero) /\ DMul(s, s) = Poly(m.cor[b].dk, Dot(r, r))
+      LET r == ItemVal(m, m.blocks[b].items[i])  x == Dot(r, r)  s == m.cor[b].s[i]
+          g1 == Poly(m.cor[b].dk, x)  g2 == Poly(PolyD(m.cor[b].dk), x) IN
+      /\ ~DLess(s, DZero) /\ DMul(s, s) = g1
+      /\ (m.cor[b].t = "tr" /\ TriggsMasked(m.cor[b], r)) =>
+           LET u == m.cor[b].u[i] IN
+           /\ DIsPos(u) /\ IsPow2D(u) /\ IsPow2D(x) /\ DIsPos(g1)
+           /\ DMul(g1, DMul(u, u)) = DAdd(g1, DMul(D(2), DMul(x, g2)))
 
 \* ------------------------------------------------------------------ weight of the whole model
 HasWeight(m) == Len(m.wt) > 0
@@ -188,9 +221,6 @@ Linearise(m) ==
   Only({ Only({ [R |-> c[1], J |-> c[2], W |-> FullWeight(m), hasW |-> HasWeight(m), R0 |-> r0, J0 |-> j0] :
                 c \in { Corrected(m, r0, j0) } }) :
          r0 \in { RawR(m) }, j0 \in { RawJ(m) } })
-\* rows of block b inside the stacked vectors: <<offset, count>>
-BlockRows(m, b) == LET n == [k \in 1..Len(m.blocks) |-> m.blocks[k].R * Len(m.blocks[k].items)] IN <<SumN(n, b - 1), n[b]>>
-
 GNSystem(L) == IF L.hasW THEN [A |-> MatMul(L.W, L.J), b |-> VNeg(MatVec(L.W, L.R))]
                ELSE [A |-> L.J, b |-> VNeg(L.R)]
 \* the least-squares solutions of A x = b are the solutions of A'A x = A'b
